@@ -118,10 +118,15 @@ pub fn meta(id: &str) -> Option<CheckMeta> {
 
 pub fn worker(ctx: &WorkerCtx) -> WorkerResult {
     if ctx.id == "C09" {
+        let t0 = std::time::Instant::now();
         let r = history::worker(ctx);
+        let t1 = t0.elapsed().as_secs_f64();
         let res = std::cell::RefCell::new(r);
         conc::worker_c09_conc(ctx, &res);
+        let t2 = t0.elapsed().as_secs_f64();
         fault::worker_hang_only(ctx, &res);
+        let t3 = t0.elapsed().as_secs_f64();
+        res.borrow_mut().notes.push(format!("worker {} spent {t1:.1}s in part (i), {:.1}s in parts (ii)/(iii), {:.1}s in part (iv)", ctx.worker, t2 - t1, t3 - t2));
         return res.into_inner();
     }
     if ctx.id == "C11" {
